@@ -371,6 +371,18 @@ func (r *real) Exec(line string) (out string) {
 			b, _ := strategy.Marshal()
 			req.Extension = []*gnmi_ext.Extension{{Ext: &gnmi_ext.Extension_RegisteredExt{
 				RegisteredExt: &gnmi_ext.RegisteredExtension{Id: configapi.TransactionStrategyExtensionID, Msg: b}}}}
+			// other extensions a client may legitimately send along, BEFORE the strategy: the strategy
+			// asked for is the one to be honoured wherever it stands in the list
+			switch pre, _ := argOf(args, "pre"); pre {
+			case "arb":
+				req.Extension = append([]*gnmi_ext.Extension{{Ext: &gnmi_ext.Extension_MasterArbitration{
+					MasterArbitration: &gnmi_ext.MasterArbitration{ElectionId: &gnmi_ext.Uint128{Low: 1}}}}}, req.Extension...)
+			case "hist":
+				req.Extension = append([]*gnmi_ext.Extension{{Ext: &gnmi_ext.Extension_History{History: &gnmi_ext.History{}}}}, req.Extension...)
+			case "reg":
+				req.Extension = append([]*gnmi_ext.Extension{{Ext: &gnmi_ext.Extension_RegisteredExt{
+					RegisteredExt: &gnmi_ext.RegisteredExtension{Id: 999, Msg: []byte{1}}}}}, req.Extension...)
+			}
 			resp, err := r.gnmi.Set(ctx, req)
 			if err != nil {
 				return errText(err)
@@ -565,7 +577,13 @@ func gen(r *rng.R, tier string) fw.Case {
 			tags = append(tags, "writes-during-subscribe")
 			nt = true
 		}
-		s = append(s, runLine(h, sync, j, p, change, i+1, win), "wait.real.stored")
+		ln := runLine(h, sync, j, p, change, i+1, win)
+		if h == "set" && r.Chance(1, 3) {
+			pre := r.Pick([]string{"arb", "hist", "reg"})
+			ln += " pre=" + pre
+			tags = append(tags, "other-extension-first:"+pre)
+		}
+		s = append(s, ln, "wait.real.stored")
 		tags = append(tags, "h:"+h, map[bool]string{true: "sync", false: "async"}[sync])
 		switch {
 		case j == 0:
